@@ -156,8 +156,8 @@ def hunt3_rules(chk, repo, hp):
     if not skip:
         chk.analysis_error("C10.total.leadcrlf: the blank-line skip (`if ... pos == start_pos ...: continue`) of HttpParser.feed_data was not found")
     else:
-        t = skip[0].test
-        calls = {norm.raw(c) for c in ast.walk(t) if isinstance(c, ast.Call)}
+        t = skip[0].test  # as written: norm.subst would replace the parameter SEP by its default, and SEP is one of the table's axes
+        calls = {norm.raw(c) for c in ast.walk(t) if isinstance(c, ast.Call)} | {norm.raw(c) for c in ast.walk(skip[0].test) if isinstance(c, ast.Call)}
         rows = {}
         try:
             # strict: lines end in CRLF, blank line <=> pos == start_pos.  lax: lines end in LF, a blank CRLF line has pos == start_pos + 1
@@ -167,6 +167,8 @@ def hunt3_rules(chk, repo, hp):
                 for c in calls:
                     if "startswith" in c and "\\r\\n" in c:
                         e[c] = env["crlf"]
+                    elif ".find(" in c:
+                        e[c] = env["pos"]  # `pos` spelled out: data.find(SEP, start_pos)
                 rows[name] = bool(Evaluator(e).ev(t))
         except AnalysisError as ex:
             rows = {"error": str(ex)}
